@@ -62,6 +62,9 @@ enum Law {
     High,
     Ramp,
     Single,
+    /// uniform bytes adjusted so that the byte sum is congruent to a small value mod 65521 (both reduced sums can then
+    /// be small at the same time: the corner where a subtraction biased by a multiple of the modulus can go negative)
+    Aligned,
 }
 
 fn gen_bytes(r: &mut Rng, law: Law, n: usize) -> Vec<u8> {
@@ -71,6 +74,23 @@ fn gen_bytes(r: &mut Rng, law: Law, n: usize) -> Vec<u8> {
         Law::All00 => vec![0; n],
         Law::High => (0..n).map(|_| 0xE0 + (r.byte() & 0x1F)).collect(),
         Law::Ramp => (0..n).map(|i| (i % 256) as u8).collect(),
+        Law::Aligned => {
+            let mut v = r.bytes(n);
+            if n * 255 >= 2 * 65521 {
+                let target = r.below(40) as i64;
+                let sum: i64 = v.iter().map(|&x| x as i64).sum();
+                // lower bytes until the sum is congruent to `target`
+                let mut excess = (sum - target).rem_euclid(65521);
+                let mut i = n;
+                while excess > 0 && i > 0 {
+                    i -= 1;
+                    let take = (v[i] as i64).min(excess);
+                    v[i] -= take as u8;
+                    excess -= take;
+                }
+            }
+            v
+        }
         Law::Single => {
             let mut v = vec![0u8; n];
             if n > 0 {
@@ -236,8 +256,8 @@ pub fn generate(seed: u64, tier: &str) -> Vec<Case> {
     let mut r = Rng::new(seed ^ 0xC17);
     let thorough = tier == "thorough";
     let ncases = if thorough { 12000 } else { 1500 };
-    let lens: [usize; 14] = [1, 2, 3, 255, 256, 257, 512, 4096, 4999, 5000, 5001, 8192, 65535, 65536];
-    let laws = [Law::Uniform, Law::AllFF, Law::All00, Law::High, Law::Ramp, Law::Single];
+    let lens: [usize; 18] = [1, 2, 3, 255, 256, 257, 512, 4096, 4999, 5000, 5001, 8192, 65520, 65521, 65522, 65530, 65535, 65536];
+    let laws = [Law::Uniform, Law::AllFF, Law::All00, Law::High, Law::Ramp, Law::Single, Law::Aligned];
     let mut budget: i64 = if thorough { 60_000_000 } else { 2_500_000 };
     let mut cases = vec![];
     for id in 0..ncases {
@@ -252,8 +272,17 @@ pub fn generate(seed: u64, tier: &str) -> Vec<Case> {
         } else {
             *r.pick(&lens[..7])
         };
-        let kind = r.below(6);
+        let kind = if id % 50 == 7 { 6 } else { r.below(6) };
         let (win, ops): (Vec<u8>, Vec<(bool, u8)>) = match kind {
+            // periodic stream over a window at / just above the modulus: every slide pushes back the byte it drops, so the
+            // byte sum keeps its (small) residue while the weighted sum moves - thousands of slides in the corner above
+            6 => {
+                let n = *r.pick(&[65521usize, 65522, 65529, 65535, 65536, 65536, 40000, 5000]);
+                let w = gen_bytes(&mut r, Law::Aligned, n);
+                let k = if thorough { 12000 } else { 3000 };
+                let ops = (0..k).map(|i| (true, w[i % n])).collect();
+                (w, ops)
+            }
             // push-grown from empty
             0 => {
                 let n = len.min(6000);
